@@ -199,8 +199,37 @@ func c07Decorate(p *synth.Project, r interface {
 	Intn(int) int
 }) int {
 	n := 0
+	// two structs get a time.Time / []byte field each; only the first one's is decorated (a shared schema object
+	// behind "date-time" / "binary" would carry the decoration over to the second)
+	added := 0
+	for si := range p.Structs {
+		st := &p.Structs[si]
+		if st.IsError || st.Name == "" || st.Name[0] < 'A' || st.Name[0] > 'Z' || added >= 2 {
+			continue
+		}
+		has := false
+		for _, f := range st.Fields {
+			if f.GoName == "Stamp" || f.GoName == "Blob" {
+				has = true
+			}
+		}
+		if has {
+			continue
+		}
+		fs := []synth.Field{{GoName: "Stamp", Type: synth.T{K: "time"}, JSONName: "stamp"}, {GoName: "Blob", Type: synth.T{K: "bytes"}, JSONName: "blob"}}
+		if added == 0 {
+			fs[0].Deprecated, fs[0].Descr = true, "When it happened (deprecated here only)"
+			fs[1].Descr = "Raw bytes, described here only"
+			n += 2
+		}
+		st.Fields = append(st.Fields, fs...)
+		added++
+	}
 	for si := range p.Structs {
 		for fi := range p.Structs[si].Fields {
+			if p.Structs[si].Fields[fi].GoName == "Stamp" || p.Structs[si].Fields[fi].GoName == "Blob" {
+				continue
+			}
 			f := &p.Structs[si].Fields[fi]
 			if k := f.Type.Base().K; f.Embedded || (k != "named" && k != "time" && k != "bytes") {
 				continue
